@@ -278,7 +278,7 @@ async def _scenario(rng, d):
             if d['up'] is not None:
                 pub = RecPublisher(world, iid, DIR_CHANNEL_UP, 'core-pub',
                                    d['up'] if d['up_error'] is None else d['up'][:d['up_error']],
-                                   'error' if d['up_error'] is not None else 'complete', ('tick',))
+                                   'error' if d['up_error'] is not None else d.get('up_terminal', 'complete'), ('tick',))
                 res['core_pub'] = pub
             core.request_channel(req_payload, pub).initial_request_n(limit).subscribe(sub)
         elif model == 'rr':
@@ -338,6 +338,7 @@ def gen_scenario(rng, single=False):
         d['up_error'] = rng.choice([None, None, None, rng.randrange(0, m + 1)])
         d['up_kind'] = rng.choice(['cold', 'hot', 'bp'])
         d['up_limit'] = rng.choice([1, 2, 3, max(1, m), MAXN])
+        d['up_terminal'] = rng.choice(['complete', 'flag'])     # last element carrying the COMPLETE flag (core publishers)
         if d['up_error'] is not None or d['down_error'] is not None:
             # with errors in a channel the other direction's fate is the recorded known finding of C08/C10
             if rng.random() < 0.5:
@@ -510,6 +511,26 @@ def judge(d, res):
                 in_run = bool(f.get('follows'))
                 if not cont and f.get('next'):
                     received += 1
+        if model == 'channel' and d['up'] is not None and d['handler_adapter']:
+            ul = d['up_limit']
+            g = r_ = 0
+            run = False
+            for e in world.events:
+                if e['kind'] != 'wire' or e['ep'] != 's' or not e['f'].get('sid'):
+                    continue
+                f = e['f']
+                if e['dir'] == 'send' and f['type'] == 'REQUEST_N':
+                    g = min(MAXN, g + f['n'])
+                    st['credit_windows_checked'] += 1
+                    if f['n'] != ul:
+                        bad('responder-request-n-differs-from-limit', wire=f['n'], limit=ul)
+                    if ul < MAXN and g - r_ > ul:
+                        bad('responder-outstanding-credit-exceeds-limit', outstanding=g - r_, limit=ul)
+                elif e['dir'] == 'recv' and f['type'] == 'PAYLOAD':
+                    cont = run
+                    run = bool(f.get('follows'))
+                    if not cont and f.get('next'):
+                        r_ += 1
         # responder's ledger
         w2, streams = c06.credit_monitor(world)
         for w in w2:
